@@ -158,7 +158,7 @@ func (w *World) observeLookups(n *Node, st *State, seed uint64) (out []obs) {
 				add("leafpos-untracked", "untracked leaf %s reported at %d", short(h), pos)
 				return
 			}
-		} else if ok {
+		} else if ok && !st.IsLive(h) {
 			add("leafpos-dead", "deleted leaf %s (slot %d) reported at position %d", short(h), i, pos)
 			return
 		}
@@ -174,6 +174,9 @@ func (w *World) observeLookups(n *Node, st *State, seed uint64) (out []obs) {
 		return true
 	}
 	for _, h := range L.InternalHashes() {
+		if st.IsLive(h) {
+			continue // a live leaf that carries the same bytes as an internal node
+		}
 		if !probe(h, "internal") {
 			return
 		}
@@ -444,7 +447,7 @@ func (w *World) observeProofs(n *Node, st *State, seed uint64) (out []obs) {
 	// non-live / untracked hashes are not provable
 	if w.on("provable-set") {
 		for i, h := range st.Leaves {
-			if !st.Alive[i] {
+			if !st.Alive[i] && !st.IsLive(h) {
 				err, _ := guard(func() error { _, e := n.acc.Prove([]H{h}); return e })
 				if err == nil && st.N > 1 {
 					add("prove-dead", "Prove succeeded for deleted leaf %s", short(h))
